@@ -3,7 +3,7 @@
 (`proc-macro2-1.0.84/src/parse.rs`) followed by `syn::Lit::new` (`syn-2.0.66/src/lit.rs`)
 
 The text is a `List Char`.  The core (`lexCore`) is a total function with fuel that returns the
-token kinds together with the *length of the remaining input at the start of the token*; the
+token kinds together with a `Mark` = *the remaining input at the start of the token*; the
 API function `lex` turns these into 1-based line / 0-based column pairs, which is what
 `proc_macro2::Span::start()` reports (columns count characters, a line ends at `'\n'` only).
 
@@ -465,17 +465,28 @@ def delimClose (c : Char) : Option Delim :=
   if c == ')' then some .paren else if c == ']' then some .bracket
   else if c == '}' then some .brace else none
 
-/-- the tokens of a doc comment; `n` = remaining length at its start, `m` = remaining length
-    after it (the closing bracket carries the span of the comment's last character) -/
-def docToks (inner : Bool) (text : List Char) (n m : Nat) : List (K × Nat) :=
+/-- where a token (or an error) starts: the text that remained at that point, plus a number
+    of characters to add (`rem` = the remaining length).  Keeping the suffix instead of its
+    length makes `lexCore` linear: the length is only computed when a position is asked for. -/
+abbrev Mark := List Char × Nat
+
+/-- the number of characters that remained at the mark -/
+def Mark.rem (m : Mark) : Nat := m.1.length + m.2
+
+/-- the mark of "here": the remaining text itself -/
+def here (cs : List Char) : Mark := (cs, 0)
+
+/-- the tokens of a doc comment; `n` = mark of its start, `m` = mark of the text after it
+    (the closing bracket carries the span of the comment's last character) -/
+def docToks (inner : Bool) (text : List Char) (n m : Mark) : List (K × Mark) :=
   (K.punct '#' false, n) :: (if inner then [(K.punct '!' false, n)] else []) ++
   [(K.op .bracket, n), (K.ident "doc", n), (K.punct '=' false, n),
-   (K.str (String.ofList text), n), (K.cl .bracket, m + 1)]
+   (K.str (String.ofList text), n), (K.cl .bracket, (m.1, m.2 + 1))]
 
-/-- `token_stream`.  Every token and every error carries the length of the input that
+/-- `token_stream`.  Every token and every error carries the mark of the input that
     remained when the token started.  `st` = the open delimiters. -/
-def lexCore : Nat → List Char → List (Delim × Nat) → Except Nat (List (K × Nat))
-  | 0, cs, _ => .error cs.length
+def lexCore : Nat → List Char → List (Delim × Mark) → Except Mark (List (K × Mark))
+  | 0, cs, _ => .error (here cs)
   | f + 1, cs, st =>
     match cs with
     | [] =>
@@ -487,27 +498,27 @@ def lexCore : Nat → List Char → List (Delim × Nat) → Except Nat (List (K 
       else
         match scanSlash cs with
         | .skip rest => lexCore f rest st
-        | .bad => .error cs.length
+        | .bad => .error (here cs)
         | .doc inner text rest =>
-          (lexCore f rest st).map (docToks inner text cs.length rest.length ++ ·)
+          (lexCore f rest st).map (docToks inner text (here cs) (here rest) ++ ·)
         | .none =>
           match delimOpen c with
           | some d =>
             if d == .paren && isERROR cs then
-              (lexCore f (cs.drop 11) st).map ((K.lit, cs.length) :: ·)
-            else (lexCore f r ((d, cs.length) :: st)).map ((K.op d, cs.length) :: ·)
+              (lexCore f (cs.drop 11) st).map ((K.lit, here cs) :: ·)
+            else (lexCore f r ((d, here cs) :: st)).map ((K.op d, here cs) :: ·)
           | none =>
             match delimClose c with
             | some d =>
               match st with
-              | [] => .error cs.length
+              | [] => .error (here cs)
               | (d', _) :: st' =>
-                if d' == d then (lexCore f r st').map ((K.cl d, cs.length) :: ·)
-                else .error cs.length
+                if d' == d then (lexCore f r st').map ((K.cl d, here cs) :: ·)
+                else .error (here cs)
             | none =>
               match lexLeaf cs with
-              | some (k, rest) => (lexCore f rest st).map ((k, cs.length) :: ·)
-              | none => .error cs.length
+              | some (k, rest) => (lexCore f rest st).map ((k, here cs) :: ·)
+              | none => .error (here cs)
 
 /-! ## positions -/
 
@@ -530,8 +541,8 @@ def stripBom : List Char → List Char
 
 def lexL (cs : List Char) : Except Pos (List Tok) :=
   match lexCore (cs.length + 1) (stripBom cs) [] with
-  | .ok r => .ok (r.map fun p => ⟨p.1, posOfRem cs p.2⟩)
-  | .error n => .error (posOfRem cs n)
+  | .ok r => .ok (r.map fun p => ⟨p.1, posOfRem cs p.2.rem⟩)
+  | .error n => .error (posOfRem cs n.rem)
 
 /-- `proc_macro2::TokenStream::from_str`; the error is `LexError::span().start()` -/
 def lex (s : String) : Except Pos (List Tok) := lexL s.toList
